@@ -82,6 +82,15 @@ def prop_lrtdp(case, ctx):
     h, hvals = make_heuristic(dict(case["heuristic"], _q=opt["Q"]), ref, vstar, view)
     below = []
     counts = {"steps": 0, "trials": 0}
+    first_order, reordered = {}, []
+
+    def _orders(action_orders):
+        # "actions at a state are randomly ordered when that state is first encountered and fixed to that order
+        # subsequently" (LRTDP docstring): an order, once recorded, never changes
+        for s, order in action_orders.items():
+            o = tuple(order)
+            if first_order.setdefault(s, o) != o and len(reordered) < 3:
+                reordered.append((view.sidx[s], first_order[s], o))
 
     class Listener(LRTDPEventListener):
         def end_of_lrtdp_timestep(self, lv):
@@ -93,6 +102,7 @@ def prop_lrtdp(case, ctx):
             counts["trials"] += 1
             if counts["trials"] > 20000:
                 raise Inconclusive("trial budget")
+            _orders(lv["self"].res.action_orders)
             V = lv["self"].res.V
             for s, v in V.items():
                 i = view.sidx[s]
@@ -106,6 +116,11 @@ def prop_lrtdp(case, ctx):
     init = [s for s, w in spec["p0"] if w > 0]
     for s in init:
         ctx.check(bool(res.solved[view.S[s]]), "C04.initial_state_not_solved", lambda: f"state {s}")
+    _orders(res.action_orders)
+    ctx.check(not reordered, "C04.action_order_not_fixed", lambda: f"(state, first order, later order) {reordered}")
+    for s, order in res.action_orders.items():
+        ctx.check(sorted(view.aidx[a] for a in order) == sorted(view.avail[view.sidx[s]]), "C04.action_order_not_the_action_set",
+                  lambda: f"state {view.sidx[s]}: order {list(order)} vs available {view.avail[view.sidx[s]]}")
     ctx.check(not below, "C04.value_below_optimal_during_trials", lambda: f"(trial, state, V, V*) {below[:3]}")
     for s, v in res.V.items():
         i = view.sidx[s]
